@@ -83,7 +83,15 @@ impl bridged::Bridged for Cust {
     }
     fn br_exec_ok(&self, ctx: ExecCtx, d: u8) -> Result<Response, Echo> {
         self.calls.hit(5);
-        Ok(Response::new().set_data(vec![d]))
+        // a fire-and-forget sub-message with id, payload and gas limit set: all of it must survive the bridge
+        let sub = cosmwasm_std::SubMsg {
+            id: d as u64,
+            payload: cosmwasm_std::Binary::new(vec![d]),
+            msg: cosmwasm_std::CosmosMsg::Bank(cosmwasm_std::BankMsg::Burn { amount: vec![] }),
+            gas_limit: Some(d as u64 + 1),
+            reply_on: cosmwasm_std::ReplyOn::Never,
+        };
+        Ok(Response::new().add_submessage(sub).set_data(vec![d]))
     }
     fn br_sudo(&self, ctx: SudoCtx, a: u64) -> Result<Response, Echo> {
         self.calls.hit(3);
@@ -256,11 +264,17 @@ pub mod proofs {
         let r = core::mem::ManuallyDrop::new(msg.dispatch(&c, (deps, env(h), info(sl))));
         match &*r {
             Ok(resp) => {
-                assert!(resp.messages.is_empty() && resp.attributes.is_empty() && resp.events.is_empty());
+                assert!(resp.attributes.is_empty() && resp.events.is_empty());
                 match &resp.data {
                     Some(b) => assert!(b.as_slice().len() == 1 && b.as_slice()[0] == d),
                     None => assert!(false),
                 }
+                assert!(resp.messages.len() == 1);
+                let m = &resp.messages[0];
+                assert!(m.id == d as u64 && m.gas_limit == Some(d as u64 + 1));
+                assert!(matches!(m.reply_on, cosmwasm_std::ReplyOn::Never));
+                assert!(m.payload.as_slice().len() == 1 && m.payload.as_slice()[0] == d);
+                assert!(matches!(&m.msg, cosmwasm_std::CosmosMsg::Bank(cosmwasm_std::BankMsg::Burn { .. })));
             }
             _ => assert!(false),
         }
